@@ -117,10 +117,18 @@ def flags(repo):
 
     variant = {"CodeGenerator.emit_deinit_for_last_usage_of_vars", "CodeGenerator.emit_for_begin",
                "CodeGenerator.emit_for_end", "CodeGenerator.lower_function[label 999]",
-               "CodeGenerator.__init__[for_loop_depth]"}
+               "CodeGenerator.__init__[for_loop_depth]", "CodeGenerator.lower_inst"}
     for key in want:
         if key not in variant:
             expect(key)
+    # lower_inst: since the repair of C03 (9d87c11) a statement that carries its own condition (made by
+    # expand_IfThenElse) is wrapped in `if (condition)`; the programs of this check contain no conditional
+    # expressions, so the wrapper is never emitted for them (the trace comparison would show it)
+    k = "CodeGenerator.lower_inst"
+    cond_wrapped = [want[k][0], want[k][1], "if inst.condition is not True:\n    self.emit_if_begin(inst.condition)",
+                    want[k][2], "if inst.condition is not True:\n    self.emit_if_end()"] + want[k][3:]
+    if got[k] != want[k] and got[k] != cond_wrapped:
+        expect(k)
     # exit label
     k = "CodeGenerator.lower_function[label 999]"
     if got[k] == want[k]:
